@@ -1215,6 +1215,77 @@ func c06R2OCIStorage(c *Ctx) {
 				return
 			}
 		}
+		// Push's sequence as a first-error table of step closures: the existence check (helper receiving the target) is
+		// made by a step that hands the helper's refusal back, the loop returns the first error, and every
+		// file-creating effect sits in a later step (or behind the exhausted table)
+		for _, sl := range c09StepLoops(fn) {
+			fns := c09StepFns(sl)
+			for i, g := range fns {
+				for _, hc := range Calls(g, func(string) bool { return true }) {
+					h := c05Helper(hc, g)
+					if _, isCall := hc.(*ssa.Call); !isCall || h == nil || h.Parent() != nil || ErrResultIndex(h.Signature) < 0 || ErrOf(hc) == nil {
+						continue
+					}
+					for pi, a := range hc.Common().Args {
+						if pi >= len(h.Params) || !(c09Resolved(a) == target || c09SameKey(a, target)) {
+							continue
+						}
+						var hHit, hMiss []Edge
+						var hStat ssa.CallInstruction
+						for _, sc := range CallsTo(h, "os.Stat", "os.Lstat") {
+							if c05ParamOf(sc.Common().Args[0]) == h.Params[pi] {
+								hStat = sc
+								hHit = append(hHit, c05NilEdgesOf(sc)...)
+								_, m, _ := NilTests(h, Aliases(ErrOf(sc)))
+								hMiss = append(hMiss, m...)
+							}
+						}
+						if hStat == nil {
+							continue
+						}
+						ok, why := c06Refusal(c, h, hHit, "~/errdef.ErrAlreadyExists", c06FsEffectCalls(h, isCreate))
+						if ok {
+							if r := c05ErrFlow(hc, ErrFlowOpts{}); !r.OK {
+								ok, why = false, "the refusal of "+FnName(h)+" is not returned by its step: "+r.Detail
+							} else if r := c05ErrFlow(sl.Call, ErrFlowOpts{}); !r.OK {
+								ok, why = false, "the error of a step is not returned by Push: "+r.Detail
+							}
+						}
+						c.Check(R, tn+"|existing-blob-refused", hStat.Pos(), ok, why)
+						ok2 := c05DeferKeepsError(h) == ""
+						for _, at := range c05MaybeNilAtoms(h) {
+							if !c05AtomMustPass(at, newCut().Edges(hMiss...)) {
+								ok2 = false
+							}
+						}
+						// the step reports success only when the helper did
+						ct := newCut()
+						c09SuccessCut(g, []ssa.Instruction{hc.(ssa.Instruction)}, ct)
+						if okS, _ := c09SuccessImplies(g, ct); !okS {
+							ok2 = false
+						}
+						n, bad := 0, ""
+						for k, gk := range fns {
+							for _, e := range c06FsEffectCalls(gk, isCreate) {
+								n++
+								if k <= i {
+									ok2, bad = false, c.P.Pos(e.Pos())
+								}
+							}
+						}
+						for _, e := range effects {
+							n++
+							if !MustPass(e, newCut().Edges(sl.Done)) {
+								ok2, bad = false, c.P.Pos(e.Pos())
+							}
+						}
+						c.Check(R, tn+"|effects-only-after-stat-miss", hStat.Pos(), ok2 && n > 0,
+							ifelse(ok2, fmt.Sprintf("%d file-creating effect(s) all lie in steps behind the one that runs %s, which returns nil only behind the Stat error edge", n, FnName(h)), "a file-creating effect "+bad+" is reachable without the existence check"))
+						return
+					}
+				}
+			}
+		}
 		c.Violation(R, tn+"|existing-blob-refused", fn.Pos(), "Push does not Stat the rename target any more: pushing an existing blob is not refused up front")
 		return
 	}
